@@ -58,8 +58,8 @@ var c07Fields = []c07Field{
 		[]string{`"2020-01-01T00:00:00Z"`, `"1969-12-31T23:59:59.999999999Z"`, `"2020-01-01T00:00:00.000000001Z"`, `"2038-01-19T03:14:08Z"`, `null`, `"2020-01-01T01:00:00+01:00"`}},
 	{"tags", "strarr", []string{`[]`, `["x"]`, `["x", "y"]`, `["y", "", "x"]`, `null`}, []string{`[]`, `["x"]`, `["x", "y"]`, `["y", "", "x"]`, `null`}},
 	{"nums", "intarr", []string{`[]`, `[1]`, `[1, 2, 3]`, `[-1, 0]`, `[3, 3]`, `null`}, []string{`[]`, `[1]`, `[1, 2, 3]`, `[-1, 0]`, `[3, 3]`, `null`}},
-	{"meta", "json", []string{`{"a": 1}`, `{"a": 2, "b": "x"}`, `{"a": {"c": true}}`, `[1, 2]`, `"s"`, `7`, `null`},
-		[]string{`{a: 1}`, `{a: 2, b: "x"}`, `{a: {c: true}}`, `[1, 2]`, `"s"`, `7`, `null`}},
+	{"meta", "json", []string{`{"a": 1}`, `{"a": 2, "b": "x"}`, `{"a": {"c": true}}`, `[1, 2]`, `"s"`, `7`, `null`, `[1, 1]`, `{"a": [2, 2]}`},
+		[]string{`{a: 1}`, `{a: 2, b: "x"}`, `{a: {c: true}}`, `[1, 2]`, `"s"`, `7`, `null`, `[1, 1]`}},
 	{"points", "counter", []string{`1`, `5`, `100`}, []string{`1`, `5`, `-2`, `10`}},
 }
 
